@@ -74,6 +74,8 @@ type Heap struct {
 	// arrays created under a framed havoc whose frame fact has not been assumed yet
 	newFramed []string
 	framedSym map[string]*Term
+	// when set, records the name and sort of every array read or created (shared by clones)
+	touch *map[string]Sort
 }
 
 var havocEpoch int
@@ -82,7 +84,7 @@ var havocEpoch int
 var ghostSetArrays = map[string]bool{}
 
 func (h *Heap) clone() *Heap {
-	n := &Heap{arr: make(map[string]*Term, len(h.arr)), havocs: append([]havocRec{}, h.havocs...)}
+	n := &Heap{arr: make(map[string]*Term, len(h.arr)), havocs: append([]havocRec{}, h.havocs...), touch: h.touch}
 	for k, v := range h.arr {
 		n.arr[k] = v
 	}
@@ -107,6 +109,9 @@ func nestedSort(leaf Sort, depth int) Sort {
 }
 
 func (h *Heap) get(name string, s Sort) *Term {
+	if h.touch != nil {
+		(*h.touch)[name] = s
+	}
 	if t, ok := h.arr[name]; ok {
 		if t.Sort != s {
 			panic(fmt.Sprintf("heap array %s sort mismatch %s vs %s", name, t.Sort, s))
